@@ -196,7 +196,13 @@ def execute(obj, ops, other=None, panel=None):
                 st.pop("__traits_version__", None)
                 state = [[m, atom(v)] for m, v in st.items()]
                 try:
-                    new = copy.copy(first) if n == "copy" else pickle.loads(pickle.dumps(first, 2))
+                    if n == "copy":
+                        new = copy.copy(first)
+                    else:
+                        # the pickle route without the class look-up by name (the classes of a case are created
+                        # on the fly): __reduce_ex__ = (__newobj__, (cls,), state), the state through pickle
+                        new = type(first).__new__(type(first))
+                        new.__setstate__(pickle.loads(pickle.dumps(first.__getstate__(), 2)))
                     other = new
                     hist.append({"out": ["Done"], "state": state,
                                  "copy": [[m, atom(new.__dict__[m]) if m in new.__dict__ else None] for m, _ in state],
